@@ -68,6 +68,15 @@ def scenarios(draw):
         for _ in range(src.int(4, 8)):
             k += 1
             sc["reads"].append(S.exact_read("t%d" % k, c[0], mol, chain, polya=src.int(20, 32)))
+    # a read that starts at the first base of a contig and reaches into the first expressed locus
+    for c in sc["chroms"]:
+        if not src.bool(0.25):
+            continue
+        firsts = sorted(r["p"] for r in sc["reads"] if r["c"] == c[0])
+        if firsts and 120 < firsts[0] < 4000:
+            k += 1
+            sc["reads"].append(R.make_read("z%d" % k, c[0], [[1, firsts[0] + src.int(40, 100)]],
+                                           flag=src.choice([0, 16]), mapq=60))
     # reads without strand evidence
     for g, t in S.transcripts_of(sc):
         if src.bool(0.3) and len(t["exons"]) > 1:
@@ -280,6 +289,40 @@ def evaluate(case, ctx):
         res.cleanup()
 
 
+@st.composite
+def split_scenarios(draw):
+    """Loci cut into several processing regions (templates of C05/C03): reads that cross a split point are processed
+    in two regions, each with its own window of the reference sequence."""
+    rnd = draw(st.randoms(use_true_random=True))
+    src = S.RndSrc(rnd)
+    annotated = draw(st.sampled_from([True, True, False]))
+    tmpl = draw(st.sampled_from(["long_gene", "straddle", "straddle_novel", "pileups", "tail_only", "tail_only"]))
+    if tmpl == "tail_only":
+        sc = S.gen_long_gene_locus(src, with_annotation=True, tail_only=True)
+    elif tmpl == "pileups":
+        sc = S.gen_deep_locus(src, with_annotation=annotated, max_reads=500, extra_chrom=False)
+    else:
+        sc = S.gen_long_gene_locus(src, with_annotation=annotated, straddle=tmpl != "long_gene",
+                                   x_annotated=tmpl != "straddle_novel", n_cross=draw(st.sampled_from([1, 2, 3])))
+    sc["template"] = tmpl
+    sc["opts"] = ["--data_type", draw(st.sampled_from(["nanopore", "pacbio_ccs"])), "--no_gzip", "--threads",
+                  str(draw(st.sampled_from([1, 2]))), "--check_canonical", "--report_canonical",
+                  draw(st.sampled_from(["auto", "all"]))]
+    if draw(st.booleans()):
+        sc["opts"] += ["--high_memory"]
+    # the subset run keeps the spliced reads and drops most of the pile-up, which changes where the locus is cut
+    sc["subset"] = [len(r["cg"]) > 1 or draw(st.integers(0, 9)) == 0 for r in sc["reads"]]
+    sc["split_locus"] = True
+    return sc
+
+
+def evaluate_split(case, ctx):
+    evaluate(case, ctx)
+    ctx.cls("template=" + case["template"])
+    ctx.mark_nontrivial(case_hash(case))
+
+
 def stages(tier):
     q = tier == "quick"
-    return [Stage("flags", "hyp", evaluate, n=224 if q else 3000, strategy=scenarios)]
+    return [Stage("flags", "hyp", evaluate, n=224 if q else 3000, strategy=scenarios),
+            Stage("split", "hyp", evaluate_split, n=48 if q else 600, strategy=split_scenarios)]
